@@ -264,24 +264,27 @@ theorem readOffsets_vparts (ser : Val → List UInt8) (vs : List Val) (off : Nat
     simp only [vparts_cons, fixedSection, List.length_cons, readOffsets, List.append_assoc,
       readOffset_toLE _ _ h1, ih', offsList]
 
-theorem deserVarN_vparts (dec : Dec) (emin emax : Nat) (ser : Val → List UInt8) (vs : List Val)
+theorem deserVarN_vparts (dec : Dec) (emin emax scope : Nat) (ser : Val → List UInt8) (vs : List Val)
     (off : Nat) (rest : Stream)
     (hb : ∀ v ∈ vs, emin ≤ (ser v).length ∧ (ser v).length ≤ emax)
-    (hdec : ∀ v ∈ vs, ∀ r, dec (ser v ++ r) (ser v).length = some (v, r)) :
-    deserVarN dec emin emax (bounds (vparts ser vs) off) (varSection (vparts ser vs) ++ rest)
+    (hdec : ∀ v ∈ vs, ∀ r, dec (ser v ++ r) (ser v).length = some (v, r))
+    (hsc : off + (varSection (vparts ser vs)).length ≤ scope) :
+    deserVarN dec emin emax scope (bounds (vparts ser vs) off) (varSection (vparts ser vs) ++ rest)
       = some (vs, rest) := by
   induction vs generalizing off with
   | nil => simp [bounds, deserVarN, varSection]
   | cons v vs ih =>
     have hv := hdec v (by simp) (varSection (vparts ser vs) ++ rest)
     have hbv := hb v (by simp)
+    simp only [vparts_cons, varSection, List.length_append] at hsc
     have ih' := ih (off + (ser v).length) (fun w hw => hb w (by simp [hw]))
-      (fun w hw => hdec w (by simp [hw]))
+      (fun w hw => hdec w (by simp [hw])) (by omega)
     obtain ⟨tl, htl⟩ := bounds_head (vparts ser vs) (off + (ser v).length)
     rw [htl] at ih'
     have h1 : ¬ (off + (ser v).length < off) := by omega
+    have h1' : ¬ (off + (ser v).length > scope) := by omega
     have h2 : off + (ser v).length - off = (ser v).length := by omega
-    simp only [vparts_cons, bounds, varSection, htl, deserVarN, h1, if_false, h2, hbv.1, hbv.2,
+    simp only [vparts_cons, bounds, varSection, htl, deserVarN, h1, h1', if_false, h2, hbv.1, hbv.2,
       decide_true, Bool.and_self, Bool.not_true, Bool.false_eq_true, List.append_assoc, hv, ih']
 
 theorem deserSeqWith_var (dec : Dec) (l emin emax : Nat) (validCount : Nat → Bool)
@@ -310,7 +313,10 @@ theorem deserSeqWith_var (dec : Dec) (l emin emax : Nat) (validCount : Nat → B
     have hro := readOffsets_vparts ser vs (4 * (vs.length + 1) + (ser v).length)
       (varSection (vparts ser (v :: vs)) ++ rest) (by omega)
     have hbd := offsList_append_end (vparts ser vs) (4 * (vs.length + 1) + (ser v).length)
-    have hdv := deserVarN_vparts dec emin emax ser (v :: vs) (4 * (vs.length + 1)) rest hb hdec
+    have hdv := deserVarN_vparts dec emin emax
+      (4 * (vs.length + 1) + (ser v).length + (varSection (vparts ser vs)).length) ser (v :: vs)
+      (4 * (vs.length + 1)) rest hb hdec
+      (by simp only [vparts_cons, varSection, List.length_append]; omega)
     simp only [vparts_cons, bounds] at hdv
     have h0 : ¬ (4 * (vs.length + 1) + (ser v).length + (varSection (vparts ser vs)).length = 0) := by
       omega
@@ -518,7 +524,9 @@ theorem rt (t : Ty) (v : Val) (rest : Stream) (hwf : t.wf = true) (hwt : WT t v 
           (varSection (serializeFields fs vs) ++ rest) hwf.2 hwt (by omega) (by omega)
         obtain ⟨tl, htl⟩ := offsList_head fs vs (fixedTotal (serializeFields fs vs)) hf hwt
         have hbd := offsList_append_end (serializeFields fs vs) (fixedTotal (serializeFields fs vs))
-        have hdyn := rtDyn fs vs (fixedTotal (serializeFields fs vs)) rest hwf.2 hwt (by omega)
+        have hdyn := rtDyn fs vs
+          (fixedTotal (serializeFields fs vs) + (varSection (serializeFields fs vs)).length)
+          (fixedTotal (serializeFields fs vs)) rest hwf.2 hwt (by omega) (Nat.le_refl _)
         rw [← hbd, htl] at hdyn
         rw [htl] at hscan
         simp only [hft] at hscan hdyn
@@ -616,10 +624,12 @@ theorem rtScan (fs : List Ty) (vs : List Val) (off : Nat) (tail : Stream)
           Bool.false_eq_true, if_false, readOffset_toLE off _ (by omega : off < 2 ^ 32), h2,
           slotsOf, offsList]
 
-theorem rtDyn (fs : List Ty) (vs : List Val) (off : Nat) (rest : Stream)
+theorem rtDyn (fs : List Ty) (vs : List Val) (scope off : Nat) (rest : Stream)
     (hwf : Ty.wfList fs = true) (hwt : WTs fs vs = true)
-    (hlen : (varSection (serializeFields fs vs)).length < 2 ^ 32) :
-    deserDyn fs (bounds (serializeFields fs vs) off) (varSection (serializeFields fs vs) ++ rest)
+    (hlen : (varSection (serializeFields fs vs)).length < 2 ^ 32)
+    (hsc : off + (varSection (serializeFields fs vs)).length ≤ scope) :
+    deserDyn fs scope (bounds (serializeFields fs vs) off)
+        (varSection (serializeFields fs vs) ++ rest)
       = some (dynOf fs vs, rest) := by
   cases fs with
   | nil =>
@@ -634,20 +644,22 @@ theorem rtDyn (fs : List Ty) (vs : List Val) (off : Nat) (rest : Stream)
       simp only [Ty.wfList, Bool.and_eq_true] at hwf
       cases hf : isFixed t with
       | true =>
-        simp only [serializeFields, hf, varSection] at hlen
-        have h2 := rtDyn ts vs off rest hwf.2 hwt.2 hlen
+        simp only [serializeFields, hf, varSection] at hlen hsc
+        have h2 := rtDyn ts vs scope off rest hwf.2 hwt.2 hlen hsc
         simp only [serializeFields, hf, bounds, varSection, deserDyn, if_true, h2, dynOf]
       | false =>
-        simp only [serializeFields, hf, varSection, List.length_append] at hlen
+        simp only [serializeFields, hf, varSection, List.length_append] at hlen hsc
         have h1 := rt t v (varSection (serializeFields ts vs) ++ rest) hwf.1 hwt.1 (by omega)
         have hb := serialize_bounds t v hwf.1 hwt.1
-        have h2 := rtDyn ts vs (off + (serialize t v).length) rest hwf.2 hwt.2 (by omega)
+        have h2 := rtDyn ts vs scope (off + (serialize t v).length) rest hwf.2 hwt.2 (by omega)
+          (by omega)
         obtain ⟨tl, htl⟩ := bounds_head (serializeFields ts vs) (off + (serialize t v).length)
         rw [htl] at h2
         have h3 : ¬ (off > off + (serialize t v).length) := by omega
+        have h3' : ¬ (off + (serialize t v).length > scope) := by omega
         have h4 : off + (serialize t v).length - off = (serialize t v).length := by omega
         simp only [serializeFields, hf, bounds, varSection, htl, deserDyn, Bool.false_eq_true,
-          if_false, h3, h4, hb.1, hb.2, decide_true, Bool.and_self, Bool.not_true,
+          if_false, h3, h3', h4, hb.1, hb.2, decide_true, Bool.and_self, Bool.not_true,
           List.append_assoc, h1, h2, dynOf]
 
 theorem rtOpt (opts : List Ty) (k : Nat) (v : Val) (rest : Stream) (hwf : Ty.wfList opts = true)
